@@ -463,6 +463,101 @@ def translate_proto(cond_src, utils_src):
 
 
 # ------------------------------------------------------------------------------------
+# lookup tables of the spec parsers
+
+PYTYPES = {"int": "TInt", "float": "TFloat", "str": "TStr", "list": "TList", "dict": "TDict", "bool": "TBool",
+           "pathlib.Path": "TPath"}
+
+
+def find_dict(tree, name, within=None):
+    """The ast.Dict assigned to `name` (anywhere in the tree, or inside function `within`)."""
+    hits = []
+    for n in ast.walk(tree):
+        if isinstance(n, ast.Assign) and len(n.targets) == 1 and isinstance(n.targets[0], ast.Name) \
+                and n.targets[0].id == name and isinstance(n.value, ast.Dict):
+            hits.append(n.value)
+    if len(hits) != 1:
+        raise Refused(f"expected exactly one dict literal assigned to {name}, found {len(hits)}")
+    return hits[0]
+
+
+def type_name(e):
+    t = ast.unparse(e)
+    if t not in PYTYPES:
+        refuse(e, f"unknown type expression {t}")
+    return PYTYPES[t]
+
+
+def str_const(e):
+    if isinstance(e, ast.Constant) and isinstance(e.value, str):
+        return e.value
+    refuse(e, "expected a string constant")
+
+
+def translate_spec_tables(cond_src, path_src, cast_src):
+    ct, pt, kt = ast.parse(cond_src), ast.parse(path_src), ast.parse(cast_src)
+    ops = {"ConditionAnd": "BoAnd", "ConditionOr": "BoOr", "ConditionXor": "BoXor"}
+    d = find_dict(ct, "BINARY_OPS")
+    binops = [f"({qs(str_const(k))}, {ops[ast.unparse(v)]})" for k, v in zip(d.keys, d.values)]
+    d = find_dict(ct, "CONDITION_DATUM_TYPES")
+    dts = [f"({qs(str_const(k))}, {qs(ast.unparse(v))})" for k, v in zip(d.keys, d.values)]
+    d = find_dict(ct, "CALLABLE_LOOKUP")
+    cl = [f"({qs(str_const(k))}, {qs(str_const(v))})" for k, v in zip(d.keys, d.values)]
+    d = find_dict(ct, "PRE_PROC_LOOKUP")
+    pl = [f"({qs(str_const(k))}, {qs(str_const(v))})" for k, v in zip(d.keys, d.values)]
+    d = find_dict(ct, "DTYPE_LOOKUP")
+    dn, dt = [], []
+    for k, v in zip(d.keys, d.values):
+        if isinstance(k, ast.Constant):
+            dn.append(f"({qs(str_const(k))}, {type_name(v)})")
+        else:
+            dt.append(f"({type_name(k)}, {type_name(v)})")
+    d = find_dict(ct, "INV_DTYPE_LOOKUP")
+    inv = [f"({type_name(k)}, {qs(str_const(v))})" for k, v in zip(d.keys, d.values)]
+    d = find_dict(pt, "CLS_LOOKUP")
+    pc = [f"({qs(str_const(k))}, {qs(ast.unparse(v))})" for k, v in zip(d.keys, d.values)]
+    # default part type: spec.pop("type", <default>)
+    default = None
+    for n in ast.walk(pt):
+        if isinstance(n, ast.Call) and isinstance(n.func, ast.Attribute) and n.func.attr == "pop" and len(n.args) == 2 \
+                and isinstance(n.args[0], ast.Constant) and n.args[0].value == "type":
+            default = str_const(n.args[1])
+    if default is None:
+        raise Refused("default part type not found")
+    d = find_dict(pt, "DATUM_TYPE_MULTI_TYPE_LOOKUP")
+    sl = [f"({qs(str_const(k))}, {qs(str_const(v))})" for k, v in zip(d.keys, d.values)]
+    allowed = None
+    for n in ast.walk(pt):
+        if isinstance(n, ast.Assign) and isinstance(n.targets[0], ast.Name) and n.targets[0].id == "ALLOWED_SUFFIXES" \
+                and isinstance(n.value, ast.Tuple):
+            allowed = [qs(str_const(e)) for e in n.value.elts]
+    if allowed is None:
+        raise Refused("ALLOWED_SUFFIXES not found")
+    d = find_dict(kt, "CAST_DTYPE_LOOKUP")
+    cd = [f"({qs(str_const(k))}, {type_name(v)})" for k, v in zip(d.keys, d.values)]
+    d = find_dict(kt, "CAST_LOOKUP")
+    fns = {"cast_string_to_bool": "CastStrBool", "int": "CastStrInt"}
+    cast = []
+    for k, v in zip(d.keys, d.values):
+        if not (isinstance(k, ast.Tuple) and len(k.elts) == 2) or ast.unparse(v) not in fns:
+            refuse(k, "CAST_LOOKUP entry")
+        cast.append(f"({type_name(k.elts[0])}, {type_name(k.elts[1])}, {fns[ast.unparse(v)]})")
+    # the body of cast_string_to_bool must be the one the model has
+    fn = [n for n in kt.body if isinstance(n, ast.FunctionDef) and n.name == "cast_string_to_bool"]
+    want = ("if s.lower() == 'true':\n    return True\nelif s.lower() == 'false':\n    return False\nelse:\n"
+            "    raise TypeError(f'Cannot cast {s!r} to a bool type.')")
+    if len(fn) != 1 or ast.unparse(fn[0].body[0]) != want:
+        raise Refused("cast_string_to_bool body changed")
+    return ("Definition spec_tabs : spec_tables := {|\n"
+            f"  sx_binops := {coq_list(binops)};\n  sx_datum_types := {coq_list(dts)};\n"
+            f"  sx_callable_lookup := {coq_list(cl)};\n  sx_preproc_lookup := {coq_list(pl)};\n"
+            f"  sx_dtype_names := {coq_list(dn)};\n  sx_dtype_types := {coq_list(dt)};\n  sx_inv_dtype := {coq_list(inv)};\n"
+            f"  sx_part_classes := {coq_list(pc)};\n  sx_part_default := {qs(default)};\n"
+            f"  sx_suffix_lookup := {coq_list(sl)};\n  sx_allowed_suffixes := {coq_list(allowed)};\n"
+            f"  sx_cast_dtype := {coq_list(cd)};\n  sx_cast_lookup := {coq_list(cast)} |}}.\n")
+
+
+# ------------------------------------------------------------------------------------
 
 HEADER = """(* GENERATED by harness/translate.py from {src} -- do not edit *)
 From Coq Require Import ZArith NArith List Bool String.
@@ -508,6 +603,11 @@ def main():
         "From Valida Require Import Py Lang Defs.", "From Valida Require Import Py Lang Defs Cond CondHeap.") + proto
     if write_if_changed(os.path.join(GEN_DIR, "ProtoGen.v"), text):
         changed.append("ProtoGen.v")
+    st = translate_spec_tables(read("valida/conditions.py"), read("valida/datapath.py"), read("valida/casting.py"))
+    text = HEADER.format(src="valida/conditions.py, valida/datapath.py, valida/casting.py").replace(
+        "From Valida Require Import Py Lang Defs.", "From Valida Require Import Py Lang Defs Cast SpecDefs.") + st
+    if write_if_changed(os.path.join(GEN_DIR, "SpecGen.v"), text):
+        changed.append("SpecGen.v")
     return changed
 
 
